@@ -253,8 +253,8 @@ def c01e(ctx):
         (ctx.ok if o.status == 'ok' else ctx.bad)('%s:%s' % (o.rule, o.construct), o.msg, o.where)
     ctx.stats['functions'] |= sub.stats['functions']
     fn = ctx.fn('mapproxy/client/wms.py:WMSClient._query_req')
-    want = {'req.params.bbox': 'query.bbox', 'req.params.size': 'query.size', 'req.params.srs': 'query.srs.srs_code', 'req.params.format': 'format'}
-    got = {unparse(s.targets[0]): unparse(s.value) for s in fn.walk() if isinstance(s, ast.Assign)}
+    want = {'.params.bbox': 'query.bbox', '.params.size': 'query.size', '.params.srs': 'query.srs.srs_code', '.params.format': 'format'}
+    got = {'.' + unparse(s.targets[0]).split('.', 1)[1]: unparse(s.value) for s in fn.walk() if isinstance(s, ast.Assign) and '.' in unparse(s.targets[0])}
     ok = all(got.get(k) == v for k, v in want.items())
     ctx.check(ok, 'WMSClient._query_req:query-to-params', 'bbox, size, srs code and format of the query are what is written into the upstream request', fn,
               fail='the upstream request parameters are not the bbox/size/srs/format of the query: %s' % {k: got.get(k) for k in want})
